@@ -145,7 +145,7 @@ CHECKS = {
         "technique": "exhaustive enumeration by the same generator (all 2^24 tags, all registered enumeration values and mask flags) plus rapid-drawn unregistered probes, against pinned tables and inverse-map/round-trip oracles",
         "level_text": "The registry is finite, so it is enumerated completely (exhaustive: true): live tables == pinned tables in both directions, name->number and number->name mutually inverse within each scope, every entry written by name in XML/JSON/text and read back as the same number, typed MarshalText/UnmarshalText for every enumeration Go type reachable from the message types; unregistered numbers are written in hex and read back (rapid).",
         "level_note": "Trusts the pinned snapshot pins/data/{tags,enums,masks}.json (292 tags 0x420001..0x420124 dense, 47 named enumerations with 601 values, 2 masks with 22 flags; cross-checked against the OASIS vector corpus in C04).",
-        "jobs": [plain("codec", "TestC17Registry"), rapid("codec", "TestC17Unregistered", 5000, 200000, shards=4)],
+        "jobs": [plain("codec", "TestC17Registry"), rapid("codec", "TestC17Unregistered", 5000, 200000, shards=4), rapid("codec", "TestC17RuntimeRegistration", 3000, 30000, shards=4)],
         "assumptions": ["pinned tables were reviewed against the KMIP 1.4 specification tables at pin time"],
     },
     "C02": {
@@ -189,7 +189,7 @@ CHECKS = {
         "technique": "property-based testing (rapid): differential against an independent TTLV codec, both directions",
         "level_text": "Generated-input exploration: random generic TTLV trees are encoded by the library and parsed by an independent strict KMIP 9.1 parser (and the reverse: independent writer -> library decoder -> re-encode); any deviation in header, width, padding, length or value is a shrunk counterexample. Right level because the statement quantifies over all trees and the oracle is an independent implementation.",
         "level_note": "Trusts harness/ttlvref as a correct reading of KMIP 1.4 section 9.1; bounded depth 5, fan-out 6, strings <= 70 bytes, big integers <= 560 bits.",
-        "jobs": [rapid("codec", "TestC03Trees", 10000, 50000)],
+        "jobs": [rapid("codec", "TestC03Trees", 10000, 50000), rapid("codec", "TestC03Large", 300, 1500)],
         "assumptions": [
             "the independent codec harness/ttlvref (written from KMIP 1.4 section 9.1, imports nothing from the library) is the reference",
             "tag 0 is outside the input domain (the library documents 0 as its end-of-data marker)",
